@@ -585,3 +585,41 @@ V('c11-id-of-last-packet', 'C11', 'C11.FORMAT', QHF, "            id_ = first_pa
 V('c11-twin-qu-rewritten', 'C11', 'C11.ROUTE', QHF,
   "            if self._is_probe:\n                self._ucast.add(record)\n            if not self._has_mcast_within_one_quarter_ttl(record):\n                self._mcast_now.add(record)\n            elif not self._is_probe:\n                self._ucast.add(record)",
   "            recent = self._has_mcast_within_one_quarter_ttl(record)\n            if not recent:\n                self._mcast_now.add(record)\n            if self._is_probe or recent:\n                self._ucast.add(record)", expect='silent')
+
+MQF = '_handlers/multicast_outgoing_queue.py'
+LSF = '_listener.py'
+# ---------------------------------------------------------------- C12
+V('c12-aggregation-800', 'C12', 'C12.WINDOW', CORE, "_AGGREGATION_DELAY = 500  # ms", "_AGGREGATION_DELAY = 800  # ms")
+V('c12-queues-swapped', 'C12', 'C12.WINDOW', CORE,
+  "self.out_delay_queue = MulticastOutgoingQueue(self, _ONE_SECOND, _PROTECTED_AGGREGATION_DELAY)", "self.out_delay_queue = MulticastOutgoingQueue(self, _PROTECTED_AGGREGATION_DELAY, _ONE_SECOND)")
+V('c12-jitter-interval', 'C12', 'C12.WINDOW', '_handlers/answers.py', "MULTICAST_DELAY_RANDOM_INTERVAL = (20, 120)", "MULTICAST_DELAY_RANDOM_INTERVAL = (0, 120)")
+V('c12-send-before-no-additional', 'C12', 'C12.WINDOW', MQF,
+  "        send_before = now + self._aggregation_delay + self._additional_delay", "        send_before = now + self._aggregation_delay")
+V('c12-send-after-no-jitter', 'C12', 'C12.WINDOW', MQF,
+  "        random_delay = random_int + self._additional_delay", "        random_delay = self._additional_delay")
+V('c12-delays-stored-swapped', 'C12', 'C12.WINDOW', MQF,
+  "        self._additional_delay = additional_delay\n        self._aggregation_delay = max_aggregation_delay", "        self._additional_delay = max_aggregation_delay\n        self._aggregation_delay = additional_delay")
+V('c12-timer-not-delayed', 'C12', 'C12.WINDOW', MQF,
+  "            loop.call_at(loop.time() + millis_to_seconds(random_delay), self.async_ready)", "            loop.call_at(loop.time() + millis_to_seconds(random_int), self.async_ready)")
+V('c12-last-second-le', 'C12', 'C12.WINDOW', QHF,
+  "self._now - maybe_entry.created < _ONE_SECOND)", "self._now - maybe_entry.created <= _ONE_SECOND)")
+V('c12-tc-interval', 'C12', 'C12.WINDOW', LSF, "_TC_DELAY_RANDOM_INTERVAL = (400, 500)", "_TC_DELAY_RANDOM_INTERVAL = (40, 50)")
+V('c12-merge-always', 'C12', 'C12.WINDOW', MQF,
+  "            if send_after <= last_group.send_after:", "            if send_after >= last_group.send_after:")
+V('c12-no-dedup', 'C12', 'C12.WIRING', MQF,
+  "            self._remove_answers_from_queue(answers)\n", "")
+V('c12-flush-waits-forever', 'C12', 'C12.WIRING', MQF,
+  "        if len(self.queue) > 1 and self.queue[0].send_before > now:", "        if len(self.queue) > 0 and self.queue[0].send_before > now:")
+V('c12-rearm-at-before', 'C12', 'C12.WIRING', MQF,
+  "            loop.call_at(loop.time() + millis_to_seconds(self.queue[0].send_after - now), self.async_ready)", "            loop.call_at(loop.time() + millis_to_seconds(self.queue[0].send_before - now), self.async_ready)")
+V('c12-take-not-due', 'C12', 'C12.WIRING', MQF,
+  "        while len(self.queue) and self.queue[0].send_after <= now:", "        while len(self.queue) and self.queue[0].send_before <= now:")
+V('c12-tc-timer-not-cancelled', 'C12', 'C12.WIRING', LSF,
+  "        self._cancel_any_timers_for_addr(addr)\n        self._timers[addr] = loop.call_at(", "        self._timers[addr] = loop.call_at(")
+V('c12-tc-duplicate-deferred', 'C12', 'C12.WIRING', LSF,
+  "        for incoming in reversed(deferred):\n            if incoming.data == msg.data:\n                return\n", "")
+V('c12-deferred-not-consumed', 'C12', 'C12.WIRING', LSF,
+  "        packets = self._deferred.pop(addr, [])", "        packets = list(self._deferred.get(addr, []))")
+# twins
+V('c12-twin-window-reordered', 'C12', 'C12.WINDOW', MQF,
+  "        send_before = now + self._aggregation_delay + self._additional_delay", "        send_before = self._additional_delay + (now + self._aggregation_delay)", expect='silent')
